@@ -115,6 +115,50 @@ func c11ClosedByHelper(p *core.Prog, fn *ssa.Function, rel ssa.Instruction, clos
 			return g, s
 		}
 	}
+	// the same protocol in a bool helper (`if !t.finish() { return errClosed }`): the release sits on
+	// the edge where the helper answered b, and it answers b only where the flag was clear and has
+	// been set
+	for _, ed := range dominatingEdges(rel) {
+		cnd, succ := ed.Norm()
+		call, ok := cnd.(*ssa.Call)
+		if !ok {
+			continue
+		}
+		h := call.Common().StaticCallee()
+		if h == nil || len(h.Blocks) == 0 || !p.IsPrivateHelper(h) || h.Signature.Results().Len() != 1 {
+			continue
+		}
+		want := succ == 0
+		g, s, n := true, true, 0
+		for _, ret := range core.Returns(h) {
+			for _, src := range phiSources(ret.Results[0]) {
+				if isConstBool(src.V, !want) {
+					continue
+				}
+				n++
+				onClear, stored := false, false
+				for _, he := range srcEdges(ret, src) {
+					c2, s2 := he.Norm()
+					if f, ok := core.LoadedField(c2); ok && f == closedF && s2 == 1 {
+						onClear = true
+					}
+				}
+				for _, b := range h.Blocks {
+					for _, in := range b.Instrs {
+						if st, ok := in.(*ssa.Store); ok && isConstBool(st.Val, true) {
+							if f, ok := core.FieldOf(st.Addr); ok && f == closedF && core.Dominates(st, ret) {
+								stored = true
+							}
+						}
+					}
+				}
+				g, s = g && onClear, s && stored
+			}
+		}
+		if n > 0 && g && s {
+			return g, s
+		}
+	}
 	return false, false
 }
 
